@@ -4,13 +4,17 @@
 (* table (C13), as a state machine:                                        *)
 (*                                                                         *)
 (*  fs   : path (relative to the pre-opened sandbox directory) -> node     *)
-(*         node = [kind |-> "dir"] | [kind |-> "file", size, data]         *)
+(*         node = [kind |-> "dir"] | [kind |-> "file", ino] | link         *)
+(*  files: ino -> [size, data], the files themselves.  A name is only a    *)
+(*         directory entry: an open descriptor holds the FILE (its ino),   *)
+(*         so unlinking or renaming the name, or giving the name to        *)
+(*         another file, changes nothing the descriptor sees (POSIX).      *)
 (*         size is a 64-bit word (8 limbs), data maps 64-bit offsets to    *)
 (*         the bytes written there (holes read as zero): files may be      *)
 (*         sparse and offsets beyond 2^32 are ordinary.                    *)
 (*  fds  : sequence indexed by descriptor number (0,1,2 standard streams,  *)
 (*         3 the pre-opened directory); descriptors are never reused.      *)
-(*         entry = [st, kind, path, pos, app, rd, wr]                      *)
+(*         entry = [st, kind, path, ino, pos, app, rd, wr]                 *)
 (*         st \in {"std","preopen","open","closed"}                        *)
 (*                                                                         *)
 (* Every call is an operator  Call(s, c)  returning the new state together *)
@@ -25,7 +29,7 @@
 EXTENDS Word, TLC, Json, IOUtils, FiniteSets
 
 EUNSPEC == 999      \* the model does not say what happens (such calls are not compared)
-ESUCCESS == 0  EBADF == 8  EEXIST == 20  EINVAL == 28  EISDIR == 31  ENOENT == 44  ENOTDIR == 54  ENOTEMPTY == 55  ELOOP == 32
+ESUCCESS == 0  EBADF == 8  EEXIST == 20  EINVAL == 28  EISDIR == 31  ENOENT == 44  ENOTDIR == 54  ENOTEMPTY == 55  ELOOP == 32  EBUSY == 10
 
 W8(n) == OfNat(n, 8)
 Z8 == Zero(8)
@@ -36,13 +40,15 @@ Join(dir, p) == IF dir = "" THEN p ELSE IF p = "" THEN dir ELSE dir \o "/" \o p
 Exists(s, p) == p \in DOMAIN s.fs
 IsDir(s, p) == p = "" \/ (Exists(s, p) /\ s.fs[p].kind = "dir")
 IsFile(s, p) == Exists(s, p) /\ s.fs[p].kind = "file"
-EmptyFile == [kind |-> "file", size |-> Z8, data |-> <<>>]
+EmptyFile == [size |-> Z8, data |-> <<>>]
+FileNode(ino) == [kind |-> "file", ino |-> ino]
+FileAt(s, p) == s.files[s.fs[p].ino]
 
-Init0 == [fs |-> <<>>,
-          fds |-> <<[st |-> "std", kind |-> "file", path |-> "", pos |-> Z8, app |-> FALSE, rd |-> TRUE, wr |-> FALSE],
-                    [st |-> "std", kind |-> "file", path |-> "", pos |-> Z8, app |-> FALSE, rd |-> FALSE, wr |-> TRUE],
-                    [st |-> "std", kind |-> "file", path |-> "", pos |-> Z8, app |-> FALSE, rd |-> FALSE, wr |-> TRUE],
-                    [st |-> "preopen", kind |-> "dir", path |-> "", pos |-> Z8, app |-> FALSE, rd |-> TRUE, wr |-> FALSE]>>]
+Init0 == [fs |-> <<>>, files |-> <<>>,
+          fds |-> <<[st |-> "std", kind |-> "file", path |-> "", ino |-> 0, pos |-> Z8, app |-> FALSE, rd |-> TRUE, wr |-> FALSE],
+                    [st |-> "std", kind |-> "file", path |-> "", ino |-> 0, pos |-> Z8, app |-> FALSE, rd |-> FALSE, wr |-> TRUE],
+                    [st |-> "std", kind |-> "file", path |-> "", ino |-> 0, pos |-> Z8, app |-> FALSE, rd |-> FALSE, wr |-> TRUE],
+                    [st |-> "preopen", kind |-> "dir", path |-> "", ino |-> 0, pos |-> Z8, app |-> FALSE, rd |-> TRUE, wr |-> FALSE]>>]
 
 Live(s, fd) == fd >= 0 /\ fd < Len(s.fds) /\ s.fds[fd + 1].st # "closed"
 FdOf(s, fd) == s.fds[fd + 1]
@@ -88,7 +94,7 @@ PathOpen(s, c) ==
     IF ~Live(s, c.dirfd) THEN Res(s, EBADF, NoOut)
     ELSE LET d == FdOf(s, c.dirfd) IN
     IF d.st = "std" THEN Res(s, EBADF, NoOut)
-    ELSE IF c.path = "" THEN Res(s, EINVAL, NoOut)
+    ELSE IF c.path = "" /\ ~c.dot THEN Res(s, EINVAL, NoOut)
     ELSE IF d.kind = "file" THEN Res(s, ENOTDIR, NoOut)
     ELSE
     LET p == IF c.abs THEN c.path ELSE Join(d.path, c.path)
@@ -97,11 +103,18 @@ PathOpen(s, c) ==
         excl  == (c.oflags \div 4) % 2 = 1
         trunc == (c.oflags \div 8) % 2 = 1
         newfd == Len(s.fds)
-        entry(kind) == [st |-> "open", kind |-> kind, path |-> p, pos |-> Z8, app |-> c.app, rd |-> c.rd \/ ~c.wr, wr |-> c.wr]
+        entry(kind, ino) == [st |-> "open", kind |-> kind, path |-> p, ino |-> ino, pos |-> Z8, app |-> c.app, rd |-> c.rd \/ ~c.wr, wr |-> c.wr]
     IN  \* a trailing slash demands a directory: on a regular file the host refuses (ENOTDIR; EISDIR when asked to create),
         \* on a missing name it cannot create a file; symbolic links are followed by the host (not modelled)
         \* O_CREAT together with O_DIRECTORY is refused outright by this host (Linux >= 6.4), whatever the name denotes
         IF creat /\ dirf THEN Res(s, EINVAL, NoOut)
+        \* a path whose last component is "." (c.dot; c.path is the directory it denotes, "" being the descriptor's own):
+        \* the directory itself, which must exist; it can be opened for reading only
+        ELSE IF c.dot THEN
+            (IF ~IsDir(s, p) THEN Res(s, Missing(s, p), NoOut)
+             ELSE IF creat /\ excl THEN Res(s, EEXIST, NoOut)
+             ELSE IF c.wr \/ creat \/ trunc THEN Res(s, EISDIR, NoOut)
+             ELSE Res([s EXCEPT !.fds = Append(@, entry("dir", 0))], ESUCCESS, [fd |-> newfd]))
         ELSE IF c.slash /\ Exists(s, p) /\ s.fs[p].kind = "link" THEN Res(s, EUNSPEC, NoOut)
         ELSE IF c.slash /\ Exists(s, p) /\ s.fs[p].kind = "file" THEN Res(s, IF creat THEN EISDIR ELSE ENOTDIR, NoOut)
         ELSE IF c.slash /\ ~Exists(s, p) /\ creat /\ IsDir(s, Join(IF c.abs THEN "" ELSE d.path, c.parent)) THEN Res(s, EISDIR, NoOut)
@@ -111,45 +124,43 @@ PathOpen(s, c) ==
             ELSE IF s.fs[p].kind = "link" THEN Res(s, EUNSPEC, NoOut)          \* symbolic links are followed by the host
             ELSE IF s.fs[p].kind = "dir" THEN
                 (IF c.wr \/ creat \/ trunc THEN Res(s, EISDIR, NoOut)
-                 ELSE Res([s EXCEPT !.fds = Append(@, entry("dir"))], ESUCCESS, [fd |-> newfd]))
+                 ELSE Res([s EXCEPT !.fds = Append(@, entry("dir", 0))], ESUCCESS, [fd |-> newfd]))
             ELSE IF dirf THEN Res(s, ENOTDIR, NoOut)
-            ELSE LET s2 == IF trunc THEN [s EXCEPT !.fs[p] = EmptyFile] ELSE s
-                 IN  Res([s2 EXCEPT !.fds = Append(@, entry("file"))], ESUCCESS, [fd |-> newfd])
+            ELSE LET s2 == IF trunc THEN [s EXCEPT !.files[s.fs[p].ino] = EmptyFile] ELSE s
+                 IN  Res([s2 EXCEPT !.fds = Append(@, entry("file", s.fs[p].ino))], ESUCCESS, [fd |-> newfd])
         ELSE IF ~creat THEN Res(s, Missing(s, Join(IF c.abs THEN "" ELSE d.path, c.parent)), NoOut)
         ELSE IF ~IsDir(s, Join(IF c.abs THEN "" ELSE d.path, c.parent)) THEN Res(s, Missing(s, Join(IF c.abs THEN "" ELSE d.path, c.parent)), NoOut)
         ELSE IF dirf THEN Res(s, EINVAL, NoOut)               \* O_CREAT | O_DIRECTORY: Linux refuses
-        ELSE Res([s EXCEPT !.fs = SetF(@, p, EmptyFile), !.fds = Append(@, entry("file"))], ESUCCESS, [fd |-> newfd])
+        ELSE Res([s EXCEPT !.fs = SetF(@, p, FileNode(Len(s.files) + 1)), !.files = Append(@, EmptyFile),
+                           !.fds = Append(@, entry("file", Len(s.files) + 1))], ESUCCESS, [fd |-> newfd])
 
 \* the descriptor must denote an open regular file for data transfer
 DataFd(s, fd) == Live(s, fd) /\ FdOf(s, fd).st = "open"
-\* an open file whose name was unlinked or renamed away lives on in the host; the model does not follow it
-Orphan(s, fd) == DataFd(s, fd) /\ FdOf(s, fd).kind = "file" /\ ~IsFile(s, FdOf(s, fd).path)
+\* an open file whose name was unlinked or renamed away lives on: the descriptor holds the file, not the name
 
 \* a positional offset with its top bit set is a negative file offset for the host: EINVAL, nothing transferred or moved
 NegOff(c) == c.offset[8] >= 128
 FdWrite(s, c, positional) ==
     IF ~DataFd(s, c.fd) THEN Res(s, EBADF, NoOut)
-    ELSE IF Orphan(s, c.fd) THEN Res(s, EUNSPEC, NoOut)
     ELSE LET d == FdOf(s, c.fd) IN
     \* (the offset is looked at before the access mode: the implementation seeks first)
     IF positional /\ NegOff(c) THEN Res(s, IF d.kind = "dir" THEN EUNSPEC ELSE EINVAL, NoOut)
     ELSE IF d.kind = "dir" \/ ~d.wr THEN Res(s, EBADF, NoOut)
     ELSE IF Concat(c.segs) = <<>> THEN Res(s, ESUCCESS, [n |-> 0])          \* nothing to write: nothing moves
-    ELSE LET f == s.fs[d.path]
+    ELSE LET f == s.files[d.ino]
              data == Concat(c.segs)
              at == IF d.app THEN f.size ELSE IF positional THEN c.offset ELSE d.pos
              f2 == PutAt(f, at, data)
              pos2 == IF positional THEN d.pos ELSE Add(at, W8(Len(data)))
-         IN  Res([s EXCEPT !.fs[d.path] = f2, !.fds[c.fd + 1].pos = pos2], ESUCCESS, [n |-> Len(data)])
+         IN  Res([s EXCEPT !.files[d.ino] = f2, !.fds[c.fd + 1].pos = pos2], ESUCCESS, [n |-> Len(data)])
 
 FdRead(s, c, positional) ==
     IF ~DataFd(s, c.fd) THEN Res(s, EBADF, NoOut)
-    ELSE IF Orphan(s, c.fd) THEN Res(s, EUNSPEC, NoOut)
     ELSE LET d == FdOf(s, c.fd) IN
     IF positional /\ NegOff(c) THEN Res(s, IF d.kind = "dir" THEN EUNSPEC ELSE EINVAL, NoOut)
     ELSE IF ~d.rd THEN Res(s, EBADF, NoOut)
     ELSE IF d.kind = "dir" THEN Res(s, IF SumLens(c.lens) = 0 THEN EUNSPEC ELSE EISDIR, NoOut)
-    ELSE LET f == s.fs[d.path]
+    ELSE LET f == s.files[d.ino]
              at == IF positional THEN c.offset ELSE d.pos
              n == Avail(f, at, SumLens(c.lens))
              data == ReadBytes(f, at, n)
@@ -164,9 +175,9 @@ FdSeek(s, c) ==
     LET wh == Whence(c.abi, c.whence) IN
     IF wh = "bad" THEN Res(s, EINVAL, NoOut)
     ELSE IF ~DataFd(s, c.fd) THEN Res(s, EBADF, NoOut)
-    ELSE IF FdOf(s, c.fd).kind = "dir" \/ Orphan(s, c.fd) THEN Res(s, EUNSPEC, NoOut)      \* seeking a directory stream: the host's business
+    ELSE IF FdOf(s, c.fd).kind = "dir" THEN Res(s, EUNSPEC, NoOut)      \* seeking a directory stream: the host's business
     ELSE LET d == FdOf(s, c.fd)
-             base == IF wh = "set" THEN Z8 ELSE IF wh = "cur" THEN d.pos ELSE (IF d.kind = "file" THEN s.fs[d.path].size ELSE Z8)
+             base == IF wh = "set" THEN Z8 ELSE IF wh = "cur" THEN d.pos ELSE (IF d.kind = "file" THEN s.files[d.ino].size ELSE Z8)
              target == Add(base, c.delta)
              \* negative result: base + delta < 0 in the integers (base < 2^63 always holds here)
              neg == SignBit(c.delta) = 1 /\ LtU(base, Neg(c.delta))
@@ -181,8 +192,8 @@ FdFilestat(s, c) ==
     ELSE LET d == FdOf(s, c.fd) IN
     IF d.st = "std" THEN Res(s, ESUCCESS, [size |-> Z8, ftype |-> 2, skip |-> TRUE])
     ELSE IF d.kind = "dir" THEN Res(s, ESUCCESS, [size |-> Z8, ftype |-> 3, skip |-> TRUE])
-    ELSE IF Orphan(s, c.fd) THEN Res(s, EUNSPEC, NoOut)
-    ELSE Res(s, ESUCCESS, [size |-> s.fs[d.path].size, ftype |-> 4, skip |-> FALSE])
+    \* fstat describes the open file, whatever has happened to the name it was opened under
+    ELSE Res(s, ESUCCESS, [size |-> s.files[d.ino].size, ftype |-> 4, skip |-> FALSE])
 
 FdClose(s, c) ==
     IF ~Live(s, c.fd) THEN Res(s, EBADF, NoOut)
@@ -221,7 +232,7 @@ PathOp(s, c) ==
     IF ~Live(s, c.dirfd) \/ (c.call = "rename" /\ ~Live(s, c.fd)) THEN Res(s, EBADF, NoOut)
     ELSE LET d == FdOf(s, c.dirfd) IN
     IF d.st = "std" \/ (c.call = "rename" /\ FdOf(s, c.fd).st = "std") THEN Res(s, EBADF, NoOut)
-    ELSE IF c.path = "" THEN Res(s, EINVAL, NoOut)
+    ELSE IF c.path = "" /\ ~c.dot THEN Res(s, EINVAL, NoOut)
     ELSE IF d.kind = "file" THEN Res(s, EUNSPEC, NoOut)
     ELSE
     LET p == Join(d.path, c.path)
@@ -229,6 +240,28 @@ PathOp(s, c) ==
         pp == Join(d.path, c.parent)
         parentOK == IsDir(s, pp)
     IN  IF c.call = "readlink" /\ c.buflen = 0 THEN Res(s, EUNSPEC, NoOut)          \* a zero-sized buffer: the host decides
+        \* a path whose last component is "." (with or without trailing slashes) names a directory THROUGH ITSELF: the host
+        \* refuses to remove, replace or move an entry it is given in this form, and the answer differs from the one for
+        \* the same directory named by a trailing slash (rmdir "d/" removes d, rmdir "d/." is EINVAL)
+        ELSE IF c.dot /\ c.call # "rename" THEN
+             (IF ~IsDir(s, p) THEN Res(s, Missing(s, p), NoOut)
+              ELSE CASE c.call \in {"mkdir", "symlink"} -> Res(s, EEXIST, NoOut)
+                     [] c.call = "rmdir" -> Res(s, EINVAL, NoOut)
+                     [] c.call = "unlink" -> Res(s, EISDIR, NoOut)
+                     [] c.call = "readlink" -> Res(s, EINVAL, NoOut)
+                     [] c.call = "pathstat" -> Res(s, ESUCCESS, [size |-> Z8, ftype |-> 3, skip |-> TRUE]))
+        ELSE IF c.call = "rename" /\ (c.dot \/ c.dot2) THEN
+             LET d2 == FdOf(s, c.fd)  q == Join(d2.path, c.path2)
+                 dstParentOK == IF c.dot2 THEN IsDir(s, q) ELSE IsDir(s, Join(d2.path, c.parent2))
+             IN  IF d2.kind = "file" THEN Res(s, EUNSPEC, NoOut)
+                 ELSE IF c.dot THEN (IF ~dstParentOK THEN Res(s, EUNSPEC, NoOut)         \* two errors apply: the host picks
+                                     ELSE IF ~IsDir(s, p) THEN Res(s, Missing(s, p), NoOut)
+                                     ELSE Res(s, EBUSY, NoOut))
+                 \* (the host looks at the form of the last components before it looks the entries up: only the two
+                 \* parents have to exist)
+                 ELSE IF ~parentOK \/ c.slash THEN Res(s, EUNSPEC, NoOut)
+                 ELSE IF ~IsDir(s, q) THEN Res(s, Missing(s, q), NoOut)
+                 ELSE Res(s, EBUSY, NoOut)
         \* rename with a trailing slash on either name: ENOTDIR when an existing non-directory is renamed and the new
         \* parent exists; which of several applicable errors the host reports first is not specified here
         ELSE IF c.call = "rename" /\ (c.slash \/ c.slash2) THEN
@@ -267,7 +300,7 @@ PathOp(s, c) ==
                IF ~Exists(s, p) THEN Res(s, Missing(s, pp), NoOut)
                ELSE IF s.fs[p].kind = "link" THEN Res(s, EUNSPEC, NoOut)
                ELSE IF s.fs[p].kind = "dir" THEN Res(s, ESUCCESS, [size |-> Z8, ftype |-> 3, skip |-> TRUE])
-               ELSE Res(s, ESUCCESS, [size |-> s.fs[p].size, ftype |-> 4, skip |-> FALSE])
+               ELSE Res(s, ESUCCESS, [size |-> FileAt(s, p).size, ftype |-> 4, skip |-> FALSE])
           [] c.call = "rename" ->
                LET d2 == FdOf(s, c.fd)  q == Join(d2.path, c.path2) IN
                IF d2.kind = "file" THEN Res(s, EUNSPEC, NoOut)
@@ -293,14 +326,19 @@ Call(s, c) ==
       [] c.call \in {"sync", "datasync"} -> FdSync(s, c)
       [] c.call = "readdir" -> (IF ~Live(s, c.fd) THEN Res(s, EBADF, NoOut) ELSE Res(s, EUNSPEC, NoOut))
       [] c.call \in {"mkdir", "rmdir", "unlink", "readlink", "pathstat", "symlink", "rename"} -> PathOp(s, c)
-      [] c.call = "mkfile"   -> Res([s EXCEPT !.fs = SetF(@, c.path, PutAt(EmptyFile, Z8, c.bytes))], ESUCCESS, NoOut)   \* scenario setup
+      [] c.call = "mkfile"   -> Res([s EXCEPT !.fs = SetF(@, c.path, FileNode(Len(s.files) + 1)),
+                                                 !.files = Append(@, PutAt(EmptyFile, Z8, c.bytes))], ESUCCESS, NoOut)   \* scenario setup
       [] c.call = "mklink"   -> Res([s EXCEPT !.fs = SetF(@, c.path, [kind |-> "link", target |-> c.target])], ESUCCESS, NoOut)
       [] c.call = "mkdirs"   -> Res([s EXCEPT !.fs = SetF(@, c.path, [kind |-> "dir"])], ESUCCESS, NoOut)
 
 ----------------------------------------------------------------------------
 (* invariants of the model state *)
-FsOK(s) == \A p \in DOMAIN s.fs : s.fs[p].kind = "file" =>
-               \A o \in DOMAIN s.fs[p].data : LtU(o, s.fs[p].size)
+FsOK(s) == /\ \A n \in 1..Len(s.files) : \A o \in DOMAIN s.files[n].data : LtU(o, s.files[n].size)
+           \* every name of a file denotes an existing file, every open file descriptor holds one, and (no hard links)
+           \* no file has two names
+           /\ \A p \in DOMAIN s.fs : s.fs[p].kind = "file" => s.fs[p].ino \in 1..Len(s.files)
+           /\ \A p, q \in DOMAIN s.fs : s.fs[p].kind = "file" /\ s.fs[q].kind = "file" /\ s.fs[p].ino = s.fs[q].ino => p = q
+           /\ \A k \in 1..Len(s.fds) : s.fds[k].st = "open" /\ s.fds[k].kind = "file" => s.fds[k].ino \in 1..Len(s.files)
 \* descriptors 0-2 are the standard streams until they are closed; numbers are never reused
 FdsOK(s) == /\ Len(s.fds) >= 4 /\ \A k \in 1..3 : s.fds[k].st \in {"std", "closed"}
 
@@ -315,11 +353,11 @@ FsOut(s) == LET ps == DOMAIN s.fs
                 Sq(P) == IF P = {} THEN <<>> ELSE LET p == CHOOSE p \in P : TRUE IN
                     <<IF s.fs[p].kind = "dir" THEN [path |-> p, kind |-> "dir", size |-> Z8, data |-> <<>>]
                       ELSE IF s.fs[p].kind = "link" THEN [path |-> p, kind |-> "link", size |-> Z8, data |-> <<>>]
-                      ELSE [path |-> p, kind |-> "file", size |-> s.fs[p].size,
-                            data |-> LET D == DOMAIN s.fs[p].data
+                      ELSE [path |-> p, kind |-> "file", size |-> FileAt(s, p).size,
+                            data |-> LET D == DOMAIN FileAt(s, p).data
                                          RECURSIVE Dq(_)
-                                         Dq(O) == IF O = {} THEN <<>> ELSE LET o == CHOOSE o \in O : TRUE IN <<<<o, s.fs[p].data[o]>>>> \o Dq(O \ {o})
-                                     IN Dq({o \in D : s.fs[p].data[o] # 0})]>> \o Sq(P \ {p})
+                                         Dq(O) == IF O = {} THEN <<>> ELSE LET o == CHOOSE o \in O : TRUE IN <<<<o, FileAt(s, p).data[o]>>>> \o Dq(O \ {o})
+                                     IN Dq({o \in D : FileAt(s, p).data[o] # 0})]>> \o Sq(P \ {p})
             IN Sq(ps)
 Next == /\ h <= Len(Hist)
         /\ IF k < Len(Hist[h].calls)
